@@ -181,8 +181,8 @@ func (h *H) drawCase(rt *rapid.T, prop string, excl map[string]int) *core.Case {
 			s.Rm = false
 			s.Prior = "absent"
 		}
-		if prop == "C18" && g.Chance(30) && len(c.Files) > 3 {
-			s.PkgVariant = g.Pick([]string{"existing-dir", "missing-dir"})
+		if prop == "C18" && g.Chance(35) {
+			s.PkgVariant = g.Pick([]string{"existing-dir", "missing-dir", "needs-require"})
 		}
 		if s.Fault == "badarg" || s.Fault == "badarg-stdout" {
 			bads := []string{"NoSuchIface", "", ":", "nope:Alias"}
